@@ -4,7 +4,7 @@
 set -u
 export GOFLAGS=-mod=mod GOPROXY=off GOSUMDB=off GOTOOLCHAIN=local
 P="$1"; K="$2"
-src=/tmp/wt-$P/out
+src=${SRCBASE:-/tmp/wt}-$P/out
 id="$P-${ROUND:+$ROUND-}benign$K"
 dst=/verif/benign/$id
 [ -f $src/refactor$K.diff ] || { echo "no $src/refactor$K.diff"; exit 2; }
